@@ -43,21 +43,29 @@ def op_strategy(draw):
         return [k, comp, prov, name, draw(st.sampled_from(INFOS)),
                 draw(st.sampled_from([True, True, True, False])),
                 draw(st.integers(0, 7)) == 0]
+    aim = None
+    if k.startswith('unreg') and draw(st.integers(0, 9)) < 6:
+        # aimed at a live registration: its key, and as component nothing /
+        # the registered object / an equal but distinct one / another one
+        aim = {'aim': draw(st.integers(0, 30)),
+               'how': draw(st.sampled_from(['none', 'same', 'equal', 'equal',
+                                            'other']))}
     if k == 'unregU':
-        return [k, draw(st.one_of(st.none(), st.just(comp))), prov, name]
+        return [k, draw(st.one_of(st.none(), st.just(comp))), prov, name, aim]
     if k == 'regA':
         return [k, comp, req, prov, name, draw(st.sampled_from(INFOS)),
                 draw(st.sampled_from([True, True, True, False]))]
     if k == 'unregA':
-        return [k, draw(st.one_of(st.none(), st.just(comp))), req, prov, name]
+        return [k, draw(st.one_of(st.none(), st.just(comp))), req, prov, name,
+                aim]
     if k == 'regS':
         return [k, comp, req, prov, draw(st.sampled_from(INFOS))]
     if k == 'unregS':
-        return [k, draw(st.one_of(st.none(), st.just(comp))), req, prov]
+        return [k, draw(st.one_of(st.none(), st.just(comp))), req, prov, aim]
     if k == 'regH':
         return [k, comp, req, draw(st.sampled_from(INFOS))]
     if k == 'unregH':
-        return [k, draw(st.one_of(st.none(), st.just(comp))), req]
+        return [k, draw(st.one_of(st.none(), st.just(comp))), req, aim]
     if k == 'query':
         return [k, draw(st.lists(st.integers(0, 2), max_size=2)), prov, name]
     return [k]
@@ -354,10 +362,28 @@ def _history(case, out, env):
                 return False
         return True
 
+    def aimed_component(aim, registered):
+        how = aim['how']
+        if how == 'none':
+            return None
+        if how == 'same':
+            return registered
+        if how == 'equal':
+            # equal, but another object
+            for v in (0, 1, 2, 3):
+                c = comp_of([registered.key, v])
+                if c is not registered:
+                    return c
+        return comp_of([registered.key + 1, 0])
+
     for step, op in enumerate(case['ops']):
         kind = op[0]
         del events[:]
         what = 'step %d %r' % (step, op)
+        aim = op[-1] if kind.startswith('unreg') and isinstance(
+            op[-1], dict) else None
+        if kind.startswith('unreg') and (op[-1] is None or aim):
+            op = op[:-1]
         if kind == 'regU':
             _, cref, p, name, info, event, use_factory = op
             c = comp_of(cref)
@@ -394,6 +420,11 @@ def _history(case, out, env):
             _, cref, p, name = op
             c = None if cref is None else comp_of(cref)
             prov = provs[p]
+            if aim and U:
+                prov, name = list(U)[aim['aim'] % len(U)]
+                c = aimed_component(aim, U[(prov, name)][0])
+                op = [kind, None, provs.index(prov), name]
+                out.tag('aimed_unregU_' + aim['how'])
             old = U.get((prov, name))
             removes = old is not None and (c is None or c == old[0])
             r = comps.unregisterUtility(c, prov, name)
@@ -426,6 +457,13 @@ def _history(case, out, env):
             f = None if cref is None else comp_of(cref)
             required = tuple(reqs[i] for i in req)
             key = (required, provs[p], name)
+            if aim and A:
+                key = list(A)[aim['aim'] % len(A)]
+                required, name = key[0], key[2]
+                p = provs.index(key[1])
+                f = aimed_component(aim, A[key][0])
+                op = [kind, None, [reqs.index(x) for x in required], p, name]
+                out.tag('aimed_unregA_' + aim['how'])
             old = A.get(key)
             removes = old is not None and (f is None or f == old[0])
             r = comps.unregisterAdapter(f, required, provs[p], name)
@@ -449,6 +487,12 @@ def _history(case, out, env):
             _, cref, req, p = op
             f = None if cref is None else comp_of(cref)
             required = tuple(reqs[i] for i in req)
+            if aim and S:
+                e0 = S[aim['aim'] % len(S)]
+                required, p = e0[0], provs.index(e0[1])
+                f = aimed_component(aim, e0[3])
+                op = [kind, None, [reqs.index(x) for x in required], p]
+                out.tag('aimed_unregS_' + aim['how'])
             new = [e for e in S if not (e[0] == required and e[1] is provs[p]
                                         and (f is None or e[3] == f))]
             k = len(S) - len(new)
@@ -473,6 +517,12 @@ def _history(case, out, env):
             _, cref, req = op
             f = None if cref is None else comp_of(cref)
             required = tuple(reqs[i] for i in req)
+            if aim and H:
+                e0 = H[aim['aim'] % len(H)]
+                required = e0[0]
+                f = aimed_component(aim, e0[2])
+                op = [kind, None, [reqs.index(x) for x in required]]
+                out.tag('aimed_unregH_' + aim['how'])
             new = [e for e in H if not (e[0] == required and
                                         (f is None or e[2] == f))]
             k = len(H) - len(new)
